@@ -192,6 +192,9 @@ func ruleConfigFileTable(c *core.Ctx, rule string) {
 			if read {
 				bad = append(bad, "the configuration file is read without asking whether it exists ("+key+")")
 			}
+			if d["use"] == "T" && !read && !retNonNil {
+				bad = append(bad, "with the configuration file switched on Load succeeds without even looking for the file ("+x.Valuation(tm.State)+"): whether the file is consulted depends on something other than its existence, so settings only the file holds are silently dropped")
+			}
 		}
 	}
 	sawRead := false
